@@ -1426,4 +1426,4 @@ mod test {
 
 #[cfg(kani)]
 #[path = "/verif/kani/ontology.rs"]
-mod verif_kani;
+pub(crate) mod verif_kani;
